@@ -114,6 +114,8 @@ def gen_set_elem(rng):
 
 def gen_complex(rng, objs):
     r = rng.random()
+    if r < 0.04:
+        return ["dict", gen_atom(rng, ["int", "float", "nestr", "dur", "unit", "qty", "bool"])]   # code-only (not in the model)
     if r < 0.2:
         return ["list", gen_singular(rng, objs)]
     if r < 0.35:
@@ -135,6 +137,8 @@ def simple_default(rng, t):
         return True, t[1]
     if isinstance(t, list) and t[0] in ("list", "set"):
         return True, []
+    if isinstance(t, list) and t[0] == "dict":
+        return True, {}
     return False, None
 
 
@@ -160,6 +164,11 @@ def gen_class(rng, name, objs, bases, used_names):
                 has_d, d = simple_default(rng, t[1])
                 if has_d and d == []:
                     has_d, d = False, None
+        elif isinstance(t, list) and t[0] in ("list", "set", "dict"):
+            if rng.random() < 0.6:          # mutable default, may later be filled in place
+                has_d, d = simple_default(rng, t)
+        elif isinstance(t, list) and t[0] == "obj" and used_names.get(t[1], {}).get("allopt") and rng.random() < 0.5:
+            has_d, d = True, {}             # settings: Settings = Settings()
         elif rng.random() < 0.3:
             has_d, d = simple_default(rng, t)
         a = n
@@ -186,7 +195,8 @@ def gen_class(rng, name, objs, bases, used_names):
             if k not in field_keys:
                 consts.append([k, rng.choice(CONST_VALUES)])
     forbid = (base is None) and rng.random() < 0.15
-    used_names[name] = {"fields": sorted(field_keys),
+    allopt = all(f[3] or (isinstance(f[2], list) and f[2][0] == "opt") for f in fields) and (base is None or binfo.get("allopt"))
+    used_names[name] = {"allopt": bool(allopt), "fields": sorted(field_keys),
                         "consts": sorted(set(binfo["consts"]) | {k for k, _ in consts} | ({"@" + k for k in ld} if ld else set()))}
     return {"name": name, "base": base, "fields": fields, "consts": consts, "ld": ld, "forbid": forbid}
 
@@ -238,7 +248,7 @@ def kinds_in(env, t, acc=None):
     if isinstance(t, str):
         if t in ("dur", "unit", "qty"):
             acc.add(t)
-    elif t[0] in ("opt", "list", "set"):
+    elif t[0] in ("opt", "list", "set", "dict"):
         kinds_in(env, t[1], acc)
     elif t[0] == "union":
         for a in t[1:]:
@@ -247,6 +257,20 @@ def kinds_in(env, t, acc=None):
         for f in flat_fields(env, t[1]):
             kinds_in(env, f[2], acc)
     return acc
+
+
+def has_dict(env, t):
+    if isinstance(t, str):
+        return False
+    if t[0] == "dict":
+        return True
+    if t[0] in ("opt", "list", "set"):
+        return has_dict(env, t[1])
+    if t[0] == "union":
+        return any(has_dict(env, a) for a in t[1:])
+    if t[0] == "obj":
+        return any(has_dict(env, f[2]) for f in flat_fields(env, t[1]))
+    return False
 
 
 def has_set(env, t):
@@ -319,6 +343,8 @@ def gen_input(rng, env, t, depth=0, py=False):
         if xs and rng.random() < 0.3:
             xs.append(xs[0])
         return xs
+    if k == "dict":
+        return {kk: gen_input(rng, env, t[1], depth, py) for kk in rng.sample(["k1", "key two", "@k", "3"], rng.choice([0, 1, 2]))}
     if k == "obj":
         return gen_obj_input(rng, env, t[1], depth + 1, py=py)
     raise ValueError(t)
@@ -531,12 +557,14 @@ def canon_tval(x):
     return x
 
 
-def default_tval(t, d):
+def default_tval(env, t, d):
     """tval of a declared (simple) default."""
     if d is None:
         return "none"
     if isinstance(t, list) and t[0] == "opt":
-        return ["some", default_tval(t[1], d)]
+        return ["some", default_tval(env, t[1], d)]
+    if isinstance(t, list) and t[0] == "obj":      # Nested(): every field at its own default
+        return ["obj"] + [default_tval(env, f[2], f[4]) if f[3] else "none" for f in flat_fields(env, t[1])]
     if t == "int":
         return ["i", str(d)]
     if t == "float":
@@ -568,7 +596,7 @@ def model_ty(env, t):
         name = t[1]
         fs = []
         for (n, a, ft, has_d, d) in flat_fields(env, name):
-            fs.append([n, a, model_ty(env, ft), [default_tval(ft, d)] if has_d else []])
+            fs.append([n, a, model_ty(env, ft), [default_tval(env, ft, d)] if has_d else []])
         cs = [[k2, jsx(v)] for k2, v in flat_consts(env, name).items()]
         return ["obj", "T" if is_forbid(env, name) else "F", fs, cs]
     raise ValueError(t)
@@ -657,6 +685,9 @@ def pytype(env_cls, t):
         return TList[pytype(env_cls, t[1])]
     if k == "set":
         return TSet[pytype(env_cls, t[1])]
+    if k == "dict":
+        from typing import Dict as TDict
+        return TDict[str, pytype(env_cls, t[1])]
     if k == "obj":
         return env_cls[t[1]]
     raise ValueError(t)
@@ -678,7 +709,12 @@ def build_classes(uni):
                 T = Annotated[T, Field(alias=a)]
             ann[n] = T
             if has_d:
-                ns[n] = set() if (isinstance(t, list) and t[0] == "set") else copy.deepcopy(d)
+                if isinstance(t, list) and t[0] == "set":
+                    ns[n] = set()
+                elif isinstance(t, list) and t[0] == "obj":
+                    ns[n] = out[t[1]]()
+                else:
+                    ns[n] = copy.deepcopy(d)
         ns["__annotations__"] = ann
         if c["forbid"]:
             ns["Config"] = type("Config", (), {"extra": Extra.forbid})
@@ -1642,7 +1678,7 @@ def _count_types(t, h):
     k = t if isinstance(t, str) else t[0]
     h[k] = h.get(k, 0) + 1
     if isinstance(t, list):
-        if k in ("opt", "list", "set"):
+        if k in ("opt", "list", "set", "dict"):
             _count_types(t[1], h)
         elif k == "union":
             for a in t[1:]:
